@@ -210,8 +210,9 @@ class PathRun:
         g = sym.simp(goal)
         if z3.is_true(g):
             self.eng.trivial += 1
-            return
-        self.obls.append(Obl(name, kind, self.pc, g, self.eng.cur_key, lineno, None, props, info))
+            if kind not in ('post', 'raise', 'inv_pres', 'inv_entry', 'dominance'):
+                return      # safety / frame side conditions that fold to true are not listed
+        self.obls.append(Obl(name, kind, self.pc if not z3.is_true(g) else [], g, self.eng.cur_key, lineno, None, props, info))
 
     def event(self, tag, **kw):
         self.events.append((tag, list(self.pc), kw))
